@@ -269,7 +269,7 @@ def run_check(prop, tier, seed):
     if use_miri:
         jobs.append(('miri', lambda: sanit.run_miri(prop, seed, out_dir, b['miri_s'], b['miri_procs'], log)))
     if use_asan:
-        aenv = dict(os.environ, ASAN_OPTIONS='detect_leaks=0:halt_on_error=1:abort_on_error=0:symbolize=1')
+        aenv = dict(os.environ, ASAN_OPTIONS='detect_leaks=0:halt_on_error=1:abort_on_error=0:symbolize=1:detect_stack_use_after_return=1')
         jobs.append(('asan', lambda: run_native(bins['asan'], prop, tier, seed, out_dir, b['asan_s'], b['asan_procs'], b['proc_ms'], env=aenv, tool='asan', prefix='a')))
         if 'asan-nohooks' in bins:
             jobs.append(('asan-nohooks', lambda: run_native(bins['asan-nohooks'], prop, tier, seed, out_dir, b['asan_s'], b['asan_procs'], b['proc_ms'], families=['off'], env=aenv, tool='asan-nohooks', prefix='b')))
